@@ -4054,6 +4054,10 @@ def main():
     gtext, gproblems = c2v_mgr.generate_mgr()
     write_if_changed(c2v_mgr.MGR_OUT, gtext, "GeneratedMgr.v")
     mproblems = mproblems + gproblems
+    import c2v_send                     # the send path (own module: tools/c2v_send.py)
+    stext2, sproblems2 = c2v_send.generate_send()
+    write_if_changed(c2v_send.SEND_OUT, stext2, "GeneratedSend.v")
+    mproblems = mproblems + sproblems2
     for p in problems + sproblems + mproblems:
         print("c2v: problem:", p)
     return 0
